@@ -137,7 +137,7 @@ CHECKS = {
   ],
  },
  "C03": {
-  "engine": "E-ENV",
+  "engine": "E-ENV+E-HIST",
   "rule": "deviation-bounded enumeration of transient failures on the end-to-end rig (real sender and receiver, in-memory network, virtual time): every plan of <= d deviations is run, followed by a failure-free period of 6 h of virtual time; the goal (everything delivered, confirmed, released; nothing of an undelivered version in staging) is evaluated at the end; distinct = distinct plans",
   "level": "Bounded liveness: every finite fault sequence up to the deviation bound is executed on the real system and delivery is required within a horizon that is an order of magnitude above the slowest legitimate recovery path.",
   "note": "Bounds: see coverage.parts[].bound. Liveness under unbounded fault sequences is not decided; the goroutine schedule of each run is the Go runtime's.",
@@ -145,6 +145,7 @@ CHECKS = {
   "assumptions": ["one schedule per plan (single P, idle-only clock advance)", "deviations are injected at the client.Conf seams and at the gate keeper; process death = the incarnation's goroutines end at their next environment action, its durable state is copied for the next incarnation"],
   "parts": [
     {"pkg": "./main", "test": "TestC03Env", "shards": {"quick": 16, "thorough": 16}},
+    {"pkg": "./stage", "test": "TestC03Hold", "shards": {"quick": 16, "thorough": 16}},
   ],
  },
  "C16": {
